@@ -1028,6 +1028,31 @@ fn scenario_buffers(args: &Args, report: &mut Report) {
             }
         }
     }
+    // scrapes that are LONGER than max_scrape_torrents are accepted too (the parser cuts them to the first max_scrape_torrents
+    // hashes, C13): the worst-case accepted scrape request is as long as the datagram buffer allows, not 16 + 20 * limit.
+    // (seeded C18c sized the io_uring receive buffers from the limit and silently dropped these.)
+    if max_scrape > 0 {
+        let mut lens: Vec<usize> = vec![max_scrape as usize + 1, max_scrape as usize + 2, 74, 100, 255, 256, 400];
+        lens.retain(|n| *n > max_scrape as usize);
+        lens.dedup();
+        for n in lens {
+            let hashes: Vec<[u8; 20]> = (0..n).map(|k| hash_n(0x65, k % 3)).collect();
+            let resp = ask(&mut c, &scrape_bytes(id, seq.next(), &hashes), 2500);
+            report.eval();
+            report.count("buffers.scrape_longer_than_limit");
+            match resp {
+                Some(RefResponse::Scrape { stats, .. }) => {
+                    if stats.len() != max_scrape as usize {
+                        report.violation("udp.live.reply_cut_short", "buffers", format!("scrape of {} hashes (limit {}) answered with {} entries", n, max_scrape, stats.len()), case.clone());
+                    }
+                    report.nontrivial(vcore::fnv(format!("longscrape/{}/{}/{}", backend, max_scrape, n).as_bytes()));
+                }
+                _ => {
+                    report.violation("udp.request_exceeds_recv_buffer", "buffers", format!("accepted configuration max_scrape_torrents={}: a scrape of {} hashes ({}-byte request; the parser cuts it to the limit) was never answered", max_scrape, n, 16 + 20 * n), case.clone());
+                }
+            }
+        }
+    }
     // announce followed by extension bytes up to a typical datagram (uring receive buffer boundary)
     let mut b = announce_bytes(id, seq.next(), h, 65_001, 0, 1, 1, [0; 4]);
     b.extend(std::iter::repeat(0u8).take(args.usize("extension", 300)));
